@@ -72,6 +72,12 @@ impl Rec {
         self.replay_sweep = Some(sweep.to_string());
         self.cur_payload = Some(payload);
     }
+    /// names the running case (`class` goes into the signature of a hang / abort finding)
+    pub fn label(&mut self, class: &str, text: &str) {
+        if let Ok(mut l) = LABEL.lock() {
+            *l = Some((class.to_string(), text.to_string()));
+        }
+    }
     pub fn payload(&self) -> Option<&str> {
         self.cur_payload.as_deref()
     }
@@ -535,7 +541,8 @@ impl Ctx {
             if i != 0 && now.saturating_sub(t) > horizon && CUR.load(Ordering::Relaxed) == i && CUR_T.load(Ordering::Relaxed) == t {
                 let so = std::io::stdout();
                 let mut so = so.lock();
-                let _ = writeln!(so, "{}", json!({"t":"hang","index":i-1,"secs":(now - t) as f64/1000.0}));
+                let lab = LABEL.try_lock().ok().and_then(|l| l.clone());
+                let _ = writeln!(so, "{}", json!({"t":"hang","index":i-1,"secs":(now - t) as f64/1000.0,"class":lab.as_ref().map(|l| l.0.clone()),"text":lab.as_ref().map(|l| l.1.clone())}));
                 let _ = so.flush();
                 std::process::exit(97);
             }
@@ -553,6 +560,9 @@ impl Ctx {
             CUR_T.store(start.elapsed().as_millis() as u64, Ordering::Relaxed);
             CUR.store(i + 1, Ordering::Relaxed);
             rec.set_case(i, None);
+            if let Ok(mut l) = LABEL.lock() {
+                *l = None;
+            }
             if let Err(p) = guard(|| f(i, &mut rec)) {
                 rec.fail(format!("{}|{}|escaped-panic|{}", prop, name, panic_class(&p)), format!("sweep {} index {}", name, i), p, "no panic outside documented preconditions");
             }
@@ -613,9 +623,12 @@ impl Ctx {
                                     done.fetch_add(hi - lo, Ordering::Relaxed);
                                     break;
                                 }
-                                ChildEnd::Hang(i, secs) => {
+                                ChildEnd::Hang(i, secs, lab) => {
                                     rec.set_case(i, None);
-                                    rec.fail(format!("{}|{}|hang", prop, name), format!("sweep {} index {}", name, i), format!("no return after {:.0}s", secs), "returns in bounded time");
+                                    match lab {
+                                        Some((class, text)) => rec.fail(format!("{}|{}|hang|{}", prop, name, class), format!("{} (sweep {} index {})", text, name, i), format!("no return after {:.0}s", secs), "returns in bounded time"),
+                                        None => rec.fail(format!("{}|{}|hang", prop, name), format!("sweep {} index {}", name, i), format!("no return after {:.0}s", secs), "returns in bounded time"),
+                                    }
                                     done.fetch_add(i + 1 - lo, Ordering::Relaxed);
                                     lo = i + 1;
                                 }
@@ -779,9 +792,13 @@ pub fn panic_class(p: &str) -> String {
     head.trim().replace('|', "/")
 }
 
+/// label of the case that is running now (class for the signature, text for the report); a worker's
+/// watchdog reports it when the case does not return
+static LABEL: Mutex<Option<(String, String)>> = Mutex::new(None);
+
 enum ChildEnd {
     Done,
-    Hang(u64, f64),
+    Hang(u64, f64, Option<(String, String)>),
     Died(String, Option<u64>),
 }
 
@@ -822,7 +839,7 @@ fn run_child(exe: &std::path::Path, prop: &str, tier: Tier, seed: u64, sweep: &s
         };
         match v["t"].as_str().unwrap_or("") {
             "at" => last_at = v["index"].as_u64(),
-            "hang" => hang = Some((v["index"].as_u64().unwrap_or(lo), v["secs"].as_f64().unwrap_or(0.0))),
+            "hang" => hang = Some((v["index"].as_u64().unwrap_or(lo), v["secs"].as_f64().unwrap_or(0.0), v["class"].as_str().map(|c| (c.to_string(), v["text"].as_str().unwrap_or("").to_string())))),
             "finding" => {
                 local.set_case(v["index"].as_u64().unwrap_or(0), None);
                 local.fail(v["sig"].as_str().unwrap_or("?"), v["case"].as_str().unwrap_or(""), v["observed"].as_str().unwrap_or(""), v["expected"].as_str().unwrap_or(""));
@@ -877,9 +894,9 @@ fn run_child(exe: &std::path::Path, prop: &str, tier: Tier, seed: u64, sweep: &s
         merge(rec, local, None);
         return ChildEnd::Done;
     }
-    if let Some((i, secs)) = hang {
+    if let Some((i, secs, lab)) = hang {
         merge(rec, local, Some(i));
-        return ChildEnd::Hang(i, secs);
+        return ChildEnd::Hang(i, secs, lab);
     }
     let st = match status {
         Ok(s) => {
